@@ -36,6 +36,9 @@ typedef struct {
     ABT_thread h;
     pthread_t pth;
     volatile int created, entries, finished, badarg, revives, cancelled;
+    /* incarnations (create / revive) that ended although nobody asked to cancel them and the function had not been
+     * entered exactly once; ent0 = entries when the current incarnation began */
+    volatile int lost, ent0;
     void *arg_given;
 } unit_t;
 static unit_t g_u[MAXU];
@@ -289,6 +292,10 @@ static void run_ops(unit_t *me)
             }
             case 'v':
                 vh_note(UEV_OPB, 'v', i, 0);
+                if (!g_u[i].cancelled && g_u[i].entries - g_u[i].ent0 != 1)
+                    g_u[i].lost++;
+                g_u[i].cancelled = 0;
+                g_u[i].ent0 = g_u[i].entries;
                 g_u[i].finished = 0;
                 g_u[i].revives++;
                 ret = ABT_thread_revive_to(pool_handle(g_u[i].pool), unit_fn, &g_u[i], &g_u[i].h);
@@ -362,6 +369,10 @@ static void run_ops(unit_t *me)
                 break;
             case 'V':
                 vh_note(UEV_OPB, 'V', i, 0);
+                if (!g_u[i].cancelled && g_u[i].entries - g_u[i].ent0 != 1)
+                    g_u[i].lost++;
+                g_u[i].cancelled = 0;
+                g_u[i].ent0 = g_u[i].entries;
                 g_u[i].finished = 0;
                 g_u[i].revives++;
                 if (g_u[i].kind == 'U')
@@ -453,8 +464,11 @@ static void dump_history(const char *status)
     vh_dump(f, status);
     int i;
     for (i = 0; i < g_nu; i++)
-        fprintf(f, "UNITSTAT %d kind=%c named=%c pool=%d created=%d entries=%d finished=%d badarg=%d revives=%d\n", i, g_u[i].kind,
-                g_u[i].named, g_u[i].pool, g_u[i].created, g_u[i].entries, g_u[i].finished, g_u[i].badarg, g_u[i].revives);
+        fprintf(f, "UNITSTAT %d kind=%c named=%c pool=%d created=%d entries=%d finished=%d badarg=%d revives=%d lost=%d\n", i,
+                g_u[i].kind, g_u[i].named, g_u[i].pool, g_u[i].created, g_u[i].entries, g_u[i].finished, g_u[i].badarg,
+                g_u[i].revives,
+                g_u[i].lost + (!strcmp(status, "DONE") && g_u[i].created && !g_u[i].cancelled &&
+                               g_u[i].entries - g_u[i].ent0 != 1));
     fclose(f);
 }
 
